@@ -179,8 +179,91 @@ def ranking_info(b, head, tail):
     return False, last_why, None
 
 
+def _defs_of(b, l):
+    """all whole-local definitions of l: (block, kind, payload)"""
+    out = []
+    for j, blk in enumerate(b.blocks):
+        if blk['cleanup']:
+            continue
+        for s in blk['stmts']:
+            if s['k'] == 'assign' and s['p']['l'] == l and not s['p']['proj']:
+                out.append((j, 'assign', s['r']))
+        t = blk['term']
+        if t['k'] == 'call' and t['dest']['l'] == l and not t['dest']['proj']:
+            out.append((j, 'call', t))
+    return out
+
+
+def _origin(b, l):
+    """follow single-definition temporaries (`_a = &mut _b`, `_a = &mut *_b`, `_a = move _b`) to the local that
+    holds the value; stops at a call result, an aggregate or a multiply-assigned local"""
+    for _ in range(8):
+        d = _defs_of(b, l)
+        if len(d) != 1 or d[0][1] != 'assign':
+            return l
+        r = d[0][2]
+        if r['k'] == 'ref' and all(x.get('k') == 'deref' for x in r['p']['proj']):
+            l = r['p']['l']
+        elif r['k'] == 'use' and r['op'].get('k') in ('copy', 'move') and not r['op']['p']['proj']:
+            l = r['op']['p']['l']
+        else:
+            return l
+    return l
+
+
+def range_loop_info(b, head, tail):
+    """second accepted loop shape: `for _ in <const>..<const>`: every iteration calls Range::next on an
+    iterator that is defined once, before the loop, from a range with constant bounds, and leaves the
+    loop when it is exhausted"""
+    loop = b.natural_loop(tail, head)
+    for i in sorted(loop):
+        t = b.blocks[i]['term']
+        if t['k'] != 'call' or not t['func'].get('fn'):
+            continue
+        nm = mir.callee_name(t['func']['fn'])
+        if not (nm.endswith('::next') and 'Range' in nm) or not (b.dominates(i, tail) or i == tail):
+            continue
+        a0 = t['args'][0]
+        if a0.get('k') not in ('copy', 'move') or a0['p']['proj']:
+            continue
+        it = _origin(b, a0['p']['l'])
+        d = _defs_of(b, it)
+        # the iterator local itself is defined once, outside the loop
+        if len(d) != 1 or d[0][0] in loop or not b.dominates(d[0][0], head):
+            continue
+        if d[0][1] != 'call' or not d[0][2]['func'].get('fn') or \
+                not mir.callee_name(d[0][2]['func']['fn']).endswith('::into_iter'):
+            continue
+        a = d[0][2]['args'][0]
+        if a.get('k') not in ('copy', 'move') or a['p']['proj']:
+            continue
+        src = _origin(b, a['p']['l'])
+        bounds = None
+        for _, kind, r in _defs_of(b, src):
+            if kind == 'assign' and r['k'] == 'agg' and (r.get('adt') or '').endswith('::Range') and len(r['ops']) == 2:
+                lo, hi = _const_of(r['ops'][0]), _const_of(r['ops'][1])
+                if lo is not None and hi is not None:
+                    bounds = (lo, hi)
+        if bounds is None:
+            continue
+        # no other use of the iterator in the loop than this next() (a second next() only shortens it; a
+        # re-assignment would be a second definition and was excluded above)
+        nxt = t['target']
+        st = b.blocks[nxt]['term'] if nxt is not None else None
+        if st is None or st['k'] != 'switch' or not any(tgt not in loop for tgt in b.succs(nxt)):
+            continue
+        return True, 'bounded `for` loop over the constant range %d..%d (Range::next at %s drives every iteration)' % (
+            bounds[0], bounds[1], b.where(i)), {'ctr': None, 'init': max(0, bounds[1] - bounds[0]), 'decs': set(),
+                                               'dec_by': {1}, 'kind': ('range', 0)}
+    return False, '', None
+
+
 def ranking(b, head, tail):
     ok, why, _ = ranking_info(b, head, tail)
+    if not ok:
+        ok2, why2, _ = range_loop_info(b, head, tail)
+        if ok2:
+            return True, why2
     return ok, why
 
 
@@ -212,9 +295,10 @@ def run_rules(ctx, chk):
     for b, tail, head in loops:
         ok, why = ranking(b, head, tail)
         chk.ob('C18.B1', 'loop:%s:ranking' % b.path.split('::')[-1], ok, b.where(head), why)
-    snap_loops = [x for x in loops if x[0].name == 'snapshot']
-    chk.ob('C18.B2', 'loops:only-the-retry-loop', len(loops) == len(snap_loops) and len(snap_loops) <= 1, '',
-           'loops on the client call paths: %s' % [(b.path.split('::')[-1], b.where(h)) for b, t, h in loops])
+    ranked = [x for x in loops if ranking(x[0], x[2], x[1])[0]]
+    chk.ob('C18.B2', 'loops:only-the-retry-loop', len(loops) == len(ranked) and len(loops) <= 1, '',
+           'loops on the client call paths: %s (each must have a ranking function; the design has exactly one retry loop)' %
+           [(b.path.split('::')[-1], b.where(h)) for b, t, h in loops])
     # call-graph acyclicity
     color = {}
     cyc = []
